@@ -16,17 +16,17 @@ theorem Same.trans {a b c : Node} (h1 : Same a b) (h2 : Same b c) : Same a c :=
 
 theorem same_st (n : Node) (s : St) (h : SameSt n.st s) : Same n { n with st := s } := ⟨h, rfl, rfl⟩
 
-theorem setPendProd_same (n : Node) (i : Nat) (v : Sched) : Same n (setPendProd n i v) := by
-  unfold setPendProd
+theorem updExt_same (n : Node) (i : Nat) (g : DevX → DevX) (hg : ∀ x, xkey (g x) = xkey x) : Same n (updExt n i g) := by
+  unfold updExt
   cases hx : n.ext[i]? with
   | none => exact Same.refl n
-  | some x => exact ⟨SameSt.refl _, rfl, map_set_same xkey _ _ x _ hx rfl⟩
+  | some x => exact ⟨SameSt.refl _, rfl, map_set_same xkey _ _ x _ hx (hg x)⟩
 
-theorem setPendConf_same (n : Node) (i : Nat) (v : Sched) : Same n (setPendConf n i v) := by
-  unfold setPendConf
-  cases hx : n.ext[i]? with
-  | none => exact Same.refl n
-  | some x => exact ⟨SameSt.refl _, rfl, map_set_same xkey _ _ x _ hx rfl⟩
+theorem xkey_afterProd (s : St) (ok : Bool) (src : Nat) (x : DevX) : xkey (afterProd s ok src x) = xkey x := by
+  unfold afterProd; cases ok <;> rfl
+
+theorem xkey_afterConf (s : St) (ok : Bool) (src : Nat) (x : DevX) : xkey (afterConf s ok src x) = xkey x := by
+  unfold afterConf; cases ok <;> rfl
 
 theorem sendPlain_same (n : Node) (i : Nat) (m : Msg) : Same n (sendPlain n i m).1 :=
   same_st n _ (sendMsg_same _ _ _)
@@ -35,19 +35,11 @@ theorem sendAll_same (i : Nat) : ∀ (ms : List Msg) (n : Node), Same n (sendAll
   | [], n => Same.refl n
   | m :: t, n => Same.trans (sendPlain_same n i m) (sendAll_same i t _)
 
-theorem finishProd_same (n : Node) (i src : Nat) (m : Msg) : Same n (finishProd n i src m) := by
-  unfold finishProd
-  have h1 : Same n { n with st := (sendMsg n.st m (some i)).1 } := same_st n _ (sendMsg_same _ _ _)
-  by_cases hr : (sendMsg n.st m (some i)).2 = true
-  · simp only [hr, ↓reduceIte]; exact Same.trans h1 (setPendProd_same _ _ _)
-  · simp only [hr]; exact Same.trans h1 (setPendProd_same _ _ _)
+theorem finishProd_same (n : Node) (i src : Nat) (m : Msg) : Same n (finishProd n i src m) :=
+  Same.trans (same_st n _ (sendMsg_same _ _ _)) (updExt_same _ _ _ (xkey_afterProd _ _ _))
 
-theorem finishConf_same (n : Node) (i src : Nat) (m : Msg) : Same n (finishConf n i src m) := by
-  unfold finishConf
-  have h1 : Same n { n with st := (sendMsg n.st m (some i)).1 } := same_st n _ (sendMsg_same _ _ _)
-  by_cases hr : (sendMsg n.st m (some i)).2 = true
-  · simp only [hr, ↓reduceIte]; exact Same.trans h1 (setPendConf_same _ _ _)
-  · simp only [hr]; exact Same.trans h1 (setPendConf_same _ _ _)
+theorem finishConf_same (n : Node) (i src : Nat) (m : Msg) : Same n (finishConf n i src m) :=
+  Same.trans (same_st n _ (sendMsg_same _ _ _)) (updExt_same _ _ _ (xkey_afterConf _ _ _))
 
 theorem sendProductInformation_same (n : Node) (i : Nat) : Same n (sendProductInformation n i).1 := by
   unfold sendProductInformation
